@@ -2,7 +2,9 @@ package props
 
 import (
 	"fmt"
+	"go/constant"
 	"go/types"
+	"syscall"
 	"strings"
 
 	"golang.org/x/tools/go/ssa"
@@ -392,6 +394,24 @@ func (h H) viewsAreReadOnly(rule string) {
 		}
 	})
 	h.C.Check(rule+" ViewAt-pure", "(*log.Log).ViewAt", ok, h.fpos(va), "ViewAt mutates the log it views")
+	// the view's first segment is the last one that starts at or before the
+	// view's prevIndex (prevIndex >= s.prevIndex): the entry prevIndex+1 lies in
+	// it also when prevIndex+1 is the last entry of that segment
+	vfi := h.P.Info(va)
+	nFirst := 0
+	core.Instrs(va, func(in ssa.Instruction) {
+		st, isSt := in.(*ssa.Store)
+		if !isSt || !strings.HasPrefix(vfi.Sym(st.Addr).String(), "new:log.Log") || !strings.HasSuffix(vfi.Sym(st.Addr).String(), ".first") {
+			return
+		}
+		nFirst++
+		seg := vfi.Sym(st.Val).String()
+		r := vfi.MustCross(in, func(a core.Atom) bool {
+			return a.Implies(core.MkAtom("$1", ">=", seg+".prevIndex"))
+		})
+		h.C.Check(rule+" view-first-segment", "(*log.Log).ViewAt store first", r.OK, h.pos(in), "the first segment of a view is not the one that starts at or before the view's prevIndex (a view that begins one entry before a segment boundary misses that entry): "+r.Witness)
+	})
+	h.C.Floor(rule+" (first segment of a view)", nFirst, 1)
 }
 
 // segmentWalks (C14.6): the loops that walk the segment chain to make the
@@ -706,6 +726,39 @@ func (h H) initialisedFileOnly(rule string) {
 		h.C.Check(rule+" map-only-vouched", "log.openSegment → mmap.OpenFile", res.OK, h.pos(in), "a segment file is mapped that neither createSegment initialised on this path nor fileExists vouched for: "+res.Witness)
 	})
 	h.C.Floor(rule+" (mmap.OpenFile in openSegment)", m, 1)
+	// the file fileExists reported as missing may exist (shorter than its
+	// header): createSegment must be able to take it over — it opens without
+	// O_EXCL
+	cfi := h.P.Info(cs)
+	nOpen := 0
+	core.Instrs(cs, func(in ssa.Instruction) {
+		c, ok := in.(*ssa.Call)
+		if !ok || c.Common().StaticCallee() == nil || c.Common().StaticCallee().String() != "os.OpenFile" {
+			return
+		}
+		nOpen++
+		okFlags := false
+		if k, isC := c.Common().Args[1].(*ssa.Const); isC && k.Value != nil {
+			if v, exact := constant.Int64Val(k.Value); exact {
+				okFlags = v&int64(syscall.O_EXCL) == 0 && v&int64(syscall.O_CREAT) != 0
+			}
+		}
+		h.C.Check(rule+" create-takes-over", "log.createSegment os.OpenFile", okFlags, h.pos(in), "createSegment cannot take over a file left by an interrupted creation (flags "+cfi.Sym(c.Common().Args[1]).String()+" must create without O_EXCL): reopening the log fails with EEXIST")
+	})
+	h.C.Floor(rule+" (os.OpenFile in createSegment)", nOpen, 1)
+	// closing and deleting a segment does not touch the chain: the walks that
+	// remove several segments (Reset, RemoveLTE, RemoveGTE) read the successor
+	// after closeAndRemove returned
+	for _, spec := range []string{"log:(*segment).closeAndRemove", "log:(*segment).close", "log:(*segment).remove"} {
+		f := h.fn(spec)
+		bad := ""
+		for v := range h.P.ModSet(f) {
+			if v.Name() == "next" || v.Name() == "prev" {
+				bad = v.Name()
+			}
+		}
+		h.C.Check(rule+" remove-keeps-links", h.name(f), bad == "", h.fpos(f), "closing/deleting a segment rewrites its chain link "+bad+": a walk that removes segments one after the other (Log.Reset) ends after the first one, the remaining files stay and are the log again after a reopen")
+	}
 }
 
 // rollOverFits (C13.4c): when Append rolls over, the new segment is created
